@@ -70,6 +70,33 @@ where
                     }
                 }
             }
+            if ["floor", "ceil", "round", "trunc", "fract"].contains(&name.as_str()) {
+                // where the grid's fixed point cannot look: arguments whose unit in the last place is 1 or 1/2 (integers beyond
+                // 2^mantissa, half-integers just below it) and the largest value below 1/2; the difference r - x is exact there
+                let m: i32 = if ty == "f32" { 23 } else { 52 };
+                let p = |e: i32| 2f64.powi(e);
+                let below_half = if ty == "f32" { 0.5f32.to_bits() - 1 } else { 0 };
+                let bh: f64 = if ty == "f32" { f32::from_bits(below_half) as f64 } else { f64::from_bits(0.5f64.to_bits() - 1) };
+                let cat: Vec<(&str, f64)> = vec![("int", p(m) + 1.0), ("int", p(m) + 3.0), ("int", p(m + 1) - 1.0), ("int", p(m - 1) + 1.0), ("int", p(m) + 2.0),
+                                                 ("int", p(m + 1) - 3.0), ("int", 3.0 * p(m - 1) + 1.0),
+                                                 ("inthalf", p(m - 1) + 0.5), ("inthalf", p(m - 1) + 1.5), ("inthalf", p(m) - 0.5), ("belowhalf", bh)];
+                for (cls, ax) in cat {
+                    for neg in [false, true] {
+                        n += 1;
+                        let x = if neg { -ax } else { ax };
+                        let r = guarded(|| h(f(x)));
+                        let rec = match r {
+                            Ok(r) => {
+                                let d = (r.to_f64().unwrap_or(f64::NAN) - x) * 2.0;
+                                let d2 = if d.is_finite() && d.abs() <= 4.0 && d.fract() == 0.0 { d as i64 } else { 99 };
+                                json!({"case": 0, "ty": ty, "op": name, "ar": 1, "exact": cls, "neg": neg, "d2": d2, "r": fx(r)})
+                            }
+                            Err(_) => { panics += 1; json!({"case": 0, "ty": ty, "op": name, "ar": 1, "exact": cls, "neg": neg, "d2": 99, "r": {"c": "panic", "v": 0}}) }
+                        };
+                        emit(rec, out);
+                    }
+                }
+            }
             for (sn, sv) in &specials {
                 n += 1;
                 let r = guarded(|| h(f(*sv)));
